@@ -109,6 +109,15 @@ def gen_scenario(rng):
         "obs_tail": rng.choice([{"reason": "Success", "duration": 1.0}] * 6 + [{"reason": "KnownIssue", "duration": 1.0},
                                 {"launch_error": "JobLaunchError"}]) | {"duration": rng.choice([0.5, 1.0, 3.0])},
     }
+    if rng.random() < 0.2:
+        # failed submissions interleaved with successful executions: whichever attempt is the first one after the
+        # producers finished is often a failed launch that directly follows an execution that succeeded (before T)
+        phase = rng.randint(0, 1)
+        sc["obs_script"] = [({"launch_error": rng.choice(["OSError", "JobLaunchError"])} if (i + phase) % 2
+                             else {"reason": "Success", "duration": rng.choice([0.5, 1.0, 2.0])}) for i in range(rng.randint(4, 10))]
+        sc["obs_tail"] = {"reason": "Success", "duration": 1.0}
+        sc["retries"] = rng.choice([1, 3, None])
+        sc["kill_delay"] = None
     fo = rng.choice(["at", "at", "point", "initial"])
     if fo == "initial":
         # output that already exists when the observer starts (e.g. producers of an earlier stage, restarts)
